@@ -137,7 +137,7 @@ func runC06GoneCase(c c06GoneCase, name string) (vios []vio, inconclusive string
 		s.log(sevt{Kind: "note", Note: "upstream idle for 36 s (no ticks, no rows)"})
 		time.Sleep(36 * time.Second)
 	}
-	s.log(sevt{Kind: "note", Note: "downstream 0 stops"})
+	stopClock := s.log(sevt{Kind: "note", Note: "downstream 0 stops"})
 	s.w.Targets[0].Stop()
 	if c.Idle {
 		rs.startPump(30 * time.Millisecond)
@@ -170,6 +170,38 @@ func runC06GoneCase(c c06GoneCase, name string) (vios []vio, inconclusive string
 		// configured retries, per writing channel
 		deadline = time.Now().Add(240 * time.Second)
 	}
+	// nothing is acknowledged once the downstream is gone: a checkpoint that covers a row written after the stop says
+	// "delivered" about a row that cannot have been delivered (a write that failed without anybody noticing)
+	beyond := func() {
+		flagged := map[string]bool{}
+		for _, e := range s.events() {
+			if e.Clock <= stopClock || e.Kind != "store" || e.Store.Kind != "task_position" || e.Store.Op != "put" || e.Store.Phase != "before" || e.Store.Coll <= 0 {
+				continue
+			}
+			for ch, pe := range e.Store.Positions {
+				rs.mu.Lock()
+				sent := append([]dataMsg{}, rs.sent...)
+				rs.mu.Unlock()
+				for _, d := range sent {
+					if d.Kind != "insert" && d.Kind != "delete" {
+						continue
+					}
+					if d.Coll == 1 && c.Other {
+						continue // replicated to the other, healthy downstream
+					}
+					col := rs.colls[d.Coll]
+					if col == nil || col.ID != e.Store.Coll || d.PChan != ch || d.SentAt <= stopClock || d.MsgID > pe.MsgID {
+						continue
+					}
+					if flagged[ch] {
+						continue
+					}
+					flagged[ch] = true
+					add("C06/checkpoint-beyond-last-acknowledged-message-downstream-gone", fmt.Sprintf("the downstream stopped at clock %d; the checkpoint Put announced at clock %d for collection %d channel %s has position id %d, which covers row uid=%d (source id %d) written at clock %d, after the stop: nothing can have acknowledged it", stopClock, e.Clock, e.Store.Coll, ch, pe.MsgID, d.UID, d.MsgID, d.SentAt))
+				}
+			}
+		}
+	}
 	paused := map[int]bool{}
 	for len(paused) < len(owners) && time.Now().Before(deadline) {
 		if !s.childAlive() {
@@ -190,6 +222,10 @@ func runC06GoneCase(c c06GoneCase, name string) (vios []vio, inconclusive string
 		}
 		sendAll()
 		time.Sleep(200 * time.Millisecond)
+	}
+	beyond()
+	if len(vios) > 0 && len(paused) < len(owners) {
+		return vios, "", mk()
 	}
 	if len(paused) < len(owners) {
 		// the service keeps retrying an unreachable downstream (connect timeouts are long): undecided, not a verdict
